@@ -87,8 +87,9 @@ Section RequestOk.
         * destruct a as [def|]; cbn [akind_ok]; [|exact I]. split.
           -- cbn [Cost.CostArgs.af_argdefs]. destruct parent as [T|]; [|intros ad []].
              intros ad Hin. exact (argdefs_of_closed ES T n ad Hcl Hin).
-          -- cbn [Cost.CostArgs.af_cost]. destruct (introspection_field parent n); [|exact I].
-             intros ctx m. unfold zero_cost. discriminate.
+          -- cbn [Cost.CostArgs.af_cost]. unfold cost_function.
+             destruct (introspection_field parent n); [intros ctx m; unfold zero_cost; discriminate|].
+             destruct (list_field ES parent n); [intros ctx m; unfold list_cost; discriminate|exact I].
         * destruct sub as [ss|]; [|constructor]. constructor; [apply c_ss_ok|constructor].
       + constructor; [exact I|constructor].
       + constructor; [exact I|]. constructor; [apply c_ss_ok|constructor].
